@@ -88,17 +88,16 @@ func runC07(k *eng.Check, tier string) {
 		for _, r := range reg {
 			rb := r.(ssa.Instruction).Block()
 			var guard *eng.Edge
+			// the edge on which the memtable's verdict equals chunkAdded, in whatever polarity the test is written
+			added := eng.CondEdgesP(fn, func(v ssa.Value) bool {
+				bo, ok := eng.IsCompare(v, token.EQL)
+				return ok && bo.X.Type() != nil && strings.HasSuffix(eng.ShortType(bo.X.Type()), "addChunkResult") && isNamedConst(c, bo.Y, "store/nbs", "chunkAdded")
+			}, true)
 			for d := rb; d != nil && guard == nil; d = d.Idom() {
-				for _, p := range d.Preds {
-					if len(p.Instrs) == 0 {
-						continue
-					}
-					iff, ok := p.Instrs[len(p.Instrs)-1].(*ssa.If)
-					if !ok || p.Succs[0] != d {
-						continue
-					}
-					if bo, ok := eng.IsCompare(iff.Cond, token.EQL); ok && strings.HasSuffix(eng.ShortType(bo.X.Type()), "addChunkResult") && isNamedConst(c, bo.Y, "store/nbs", "chunkAdded") {
-						guard = &eng.Edge{From: p, Succ: 0}
+				for e := range added.E {
+					if e.To() == d && guard == nil {
+						ee := e
+						guard = &ee
 					}
 				}
 			}
